@@ -6,6 +6,8 @@ func init() {
 	vRegister("HarnessC08_selfref", HarnessC08_selfref)
 	vRegister("HarnessC08_yamlalias", HarnessC08_yamlalias)
 	vRegister("HarnessC10_listref", HarnessC10_listref)
+	vRegister("HarnessC10_chain", HarnessC10_chain)
+	vRegister("HarnessC10_witness", HarnessC10_witness)
 }
 
 // HarnessC08_selfref: a map or a list that (directly, through a second node,
@@ -86,4 +88,72 @@ func HarnessC10_listref() {
 	vObserve("got", got[0])
 	vAssert("C10.listref.target", vEq(got[0].(map[string]any)["m"], alone[0].(map[string]any)["m"]))
 	vCover("listref.checked")
+}
+
+// HarnessC10_chain: chains of references: top refers to mid, mid refers to
+// base (mid a placeholder-only {$merge: base} or with content of its own);
+// the outer link is evaluated after or before the middle one (key order);
+// also paths that run THROUGH the middle link. All equal the hand-inlined
+// document.
+func HarnessC10_chain() {
+	c := ndScalarNN()
+	base := func() map[string]any { return map[string]any{"k": map[string]any{"d": c}, "e": 1} }
+	midOwn := ndChoice(2) == 1
+	mid := map[string]any{"$merge": "base"}
+	midInl := base()
+	if midOwn {
+		mid["own"] = 2
+		midInl["own"] = 2
+	}
+	names := [][2]string{{"mid", "top"}, {"mid", "a_top"}}[ndChoice(2)]
+	midName, topName := names[0], names[1]
+	var top, topInl any
+	pathThrough := false
+	switch ndChoice(6) {
+	case 0:
+		top = map[string]any{"$merge": midName}
+		topInl = vCopy(midInl)
+	case 1:
+		top = map[string]any{"$merge": midName, "loc": 3}
+		m := vCopy(midInl).(map[string]any)
+		m["loc"] = 3
+		topInl = m
+	case 2:
+		top = map[string]any{"$replace": midName}
+		topInl = vCopy(midInl)
+	case 3:
+		top = "$merge:" + midName
+		topInl = vCopy(midInl)
+	case 4: // a path through the middle link
+		pathThrough = true
+		top = map[string]any{"$replace": midName + ".k"}
+		topInl = map[string]any{"d": c}
+	default:
+		pathThrough = true
+		top = map[string]any{"$replace": []any{midName, "k", "d"}}
+		topInl = c
+	}
+	if pathThrough && topName == "a_top" {
+		// known finding C10-K1: a path THROUGH a link that has not been
+		// evaluated yet (the outer key sorts before it) is not found
+		vCover("known.C10-K1")
+		vAssume(false)
+	}
+	ref := map[string]any{"base": base(), midName: mid, topName: top}
+	twin := map[string]any{"base": base(), midName: vCopy(midInl), topName: topInl}
+	vObserve("ref", ref)
+	got, err := c06Eval(ref)
+	want, werr := c06Eval(twin)
+	vAssert("C10.chain.twin", werr == nil)
+	vAssert("C10.chain.accepted", err == nil)
+	vObserve("got", got)
+	vObserve("want", want)
+	vAssert("C10.chain.same", vEq(got, want))
+	vCover("chain.checked")
+}
+
+// HarnessC10_witness: known finding C10-K1.
+func HarnessC10_witness() {
+	_, err := c06Eval(map[string]any{"a_top": map[string]any{"$replace": "mid.k"}, "base": map[string]any{"k": map[string]any{"d": 1}}, "mid": map[string]any{"$merge": "base"}})
+	vAssert("C10.chain.accepted", err == nil)
 }
